@@ -21,6 +21,7 @@ HARNESSES = {
     'k_names_len_first': (('C01', 'C03', 'C04', 'C09'), True, 'the 4 listed name pairs of different UTF-16 length, with supplementary-plane characters', 'quick'),
     'k_path_normalisation': (('C01', 'C09', 'C10'), True, 'the 12 listed paths (., .., //, leading /, climbing above the root)', 'quick'),
     'k_timestamp_from_system_time': (('C17',), False, None, 'thorough'),
+    'k_timestamp_listed_instants': (('C17',), True, 'the six listed instants (1970, sub-tick fractions on both sides, beyond i64 ticks, saturation at both ends)', 'quick'),
 }
 
 
